@@ -615,6 +615,10 @@ void parallel_for(
   }
 
   if (isStatic) {
+    // When waiting, the tail runs on the caller after all chunks have finished. When not waiting the
+    // caller must not run it: it would use the first state concurrently with the chunk that owns
+    // that state, and be one more concurrent invocation than maxThreads. The last chunk covers the
+    // tail instead (like the dynamic no-wait path, which defers the tail to the last worker).
     detail::parallel_for_staticImpl(
         taskSet,
         states,
@@ -624,8 +628,11 @@ void parallel_for(
         static_cast<ssize_t>(maxThreads),
         options.wait,
         options.reuseExistingState,
-        granularity);
-    runTail();
+        granularity,
+        options.wait ? parRange.end : range.end);
+    if (options.wait) {
+      runTail();
+    }
     return;
   }
 
